@@ -355,6 +355,15 @@ class SimSrc:
             return h
         tl = self.tls[min(h.k, len(self.tls) - 1)]
         leaky = self.kind == "leaky"
+        if self.kind == "iter":
+            # a lazy iterable handed to from_iterable: one scheduled action at the subscribe instant pulls it to the end
+            def pull():
+                for _, k, p in tl:
+                    if h.open:
+                        self._push(h, k, p)
+
+            sim.at(sim.now, pull, self.role)
+            return h
         for t, k, p in tl:
             if self.kind == "sync" and t == 0:
                 if h.open:
@@ -815,10 +824,34 @@ def second_tick(sec, t0, first_terminal_tick):
     return "overlap", t0 + sec["d"]
 
 
+class IterInner:
+    """Placeholder for an inner that is not an observable but a lazy iterable built by the mapper (no subscription log)."""
+
+    def __init__(self, spec, name):
+        self.kind = "iter"
+        self.name = name
+        self.spec = spec
+        self.subs, self.sub_seq, self.term, self.lost_sched = [], [], [], 0
+
+    def make(self):
+        def gen():
+            for _, k, p in self.spec["tl"]:
+                if k == "N":
+                    yield val(p)
+                elif k == "E":
+                    raise Tagged(p)
+                else:
+                    return
+
+        return gen()
+
+
 def subs_cover(op, subs):
     """Every inner subscription the reference expects is present in the real log (multiset inclusion on (src, tick))."""
     real = [(d["src"], d["sub"]) for d in subs]
     for j in op.started:
+        if op.inners[op.arrivals[j]["src"]].kind == "iter":
+            continue
         key = (op.arrivals[j]["src"], op.arrivals[j]["sub"])
         if key in real:
             real.remove(key)
